@@ -1,4 +1,4 @@
-//@serves C06 C09 C10
+//@serves C06 C09 C10 C07
 //@tier A
 //@include prelude/head.rs
 verus! {
